@@ -2,6 +2,7 @@ package main
 
 import (
 	"fmt"
+	"go/token"
 	"go/types"
 	"sort"
 	"strings"
@@ -21,11 +22,13 @@ type ievent struct {
 	Key      string   // key of the call value (tuple results: Key#0, Key#1)
 	In       ssa.Instruction
 	Deferred bool
+	Impure   bool          // the callee may return different values for the same arguments
 	Fn       *ssa.Function // function the instruction belongs to
 }
 
 type ipath struct {
 	Rels   relSet
+	Vol    relSet // relations over impure expressions: equal keys need not denote equal values
 	Events []ievent
 	Exit   string   // "return", "panic"
 	Ret    []string // keys of the returned values for Exit == "return"
@@ -109,16 +112,34 @@ func (p *Prog) ipathsD(f *ssa.Function, depth int, stack map[*ssa.Function]bool)
 	var out []ipath
 	for _, cp := range cps {
 		// partial paths being extended
-		cur := []ipath{{Rels: relSet{}, Trace: FuncName(f) + ":" + cp.String(), Root: cp.Blocks}}
+		cur := []ipath{{Rels: relSet{}, Vol: relSet{}, Trace: FuncName(f) + ":" + cp.String(), Root: cp.Blocks}}
 		var binds [][2]string // call-result key -> returned key, applied to facts at the end
 		alive := true
 		// facts of this path in f's terms
 		factRels := []string{}
+		factVol := relSet{}
+		var vfacts []valFact
+		contradictory := false
 		for _, fc := range cp.Facts {
 			cond := resolveOnPathAt(cp, fc.Cond, fc.At, p.havoc)
 			if s, ok := relOf(fact{Cond: cond, Val: fc.Val}); ok {
 				factRels = append(factRels, s)
+				if p.volatileValue(cond) {
+					factVol[s] = true
+				}
 			}
+			// value-level contradiction: the same values compared with opposite outcomes, each evaluated once
+			if vf, ok := valFactOf(cond, fc.Val); ok && evaluatedOnce(cp, vf.x) && evaluatedOnce(cp, vf.y) {
+				for _, o := range vfacts {
+					if (sameVal(o.x, vf.x) && sameVal(o.y, vf.y) || sameVal(o.x, vf.y) && sameVal(o.y, vf.x)) && o.eq != vf.eq {
+						contradictory = true
+					}
+				}
+				vfacts = append(vfacts, vf)
+			}
+		}
+		if contradictory {
+			continue
 		}
 		for _, b := range cp.Blocks {
 			if !alive {
@@ -154,9 +175,13 @@ func (p *Prog) ipathsD(f *ssa.Function, depth int, stack map[*ssa.Function]bool)
 									continue
 								}
 								for _, sp := range sub {
-									n := ipath{Rels: c0.Rels.clone(), Events: append([]ievent{}, c0.Events...), Trace: c0.Trace, Root: c0.Root}
+									n := ipath{Rels: c0.Rels.clone(), Vol: c0.Vol.clone(), Events: append([]ievent{}, c0.Events...), Trace: c0.Trace, Root: c0.Root}
 									for k := range sp.Rels {
-										n.Rels[renormRel(keySubst(k, psub))] = true
+										nk := renormRel(keySubst(k, psub))
+										n.Rels[nk] = true
+										if sp.Vol[k] {
+											n.Vol[nk] = true
+										}
 									}
 									for _, e := range sp.Events {
 										ne := e
@@ -250,12 +275,20 @@ func (p *Prog) ipathsD(f *ssa.Function, depth int, stack map[*ssa.Function]bool)
 				evs = append(evs, e)
 			}
 			delete(c.Rels, "\x00bind")
-			rels := relSet{}
+			rels, vol := relSet{}, relSet{}
 			for k := range c.Rels {
-				rels[renormRel(replaceAllKeys(k, bs))] = true
+				nk := renormRel(replaceAllKeys(k, bs))
+				rels[nk] = true
+				if c.Vol[k] {
+					vol[nk] = true
+				}
 			}
 			for _, k := range factRels {
-				rels[renormRel(replaceAllKeys(k, bs))] = true
+				nk := renormRel(replaceAllKeys(k, bs))
+				rels[nk] = true
+				if factVol[k] {
+					vol[nk] = true
+				}
 			}
 			for i := range evs {
 				evs[i].Key = replaceAllKeys(evs[i].Key, bs)
@@ -266,8 +299,21 @@ func (p *Prog) ipathsD(f *ssa.Function, depth int, stack map[*ssa.Function]bool)
 			for i := range c.Ret {
 				c.Ret[i] = replaceAllKeys(c.Ret[i], bs)
 			}
-			c.Rels, c.Events = rels, evs
-			if infeasible(c.Rels) {
+			c.Rels, c.Vol, c.Events = rels, vol, evs
+			// expressions evaluated more than once on this path with possibly different results
+			cnt := map[string]int{}
+			for _, e := range evs {
+				if e.Impure && e.Key != "" && !e.Deferred {
+					cnt[e.Key]++
+				}
+			}
+			var amb []string
+			for k, n := range cnt {
+				if n > 1 {
+					amb = append(amb, k)
+				}
+			}
+			if infeasible(c.Rels, amb) {
 				continue
 			}
 			out = append(out, c)
@@ -289,7 +335,7 @@ func flatten(bs [][2]string) []string {
 }
 
 func mkEvent(cc *ssa.CallCommon, v ssa.Value, in ssa.Instruction, f *ssa.Function) ievent {
-	ev := ievent{In: in, Fn: f}
+	ev := ievent{In: in, Fn: f, Impure: curProg == nil || !curProg.pureCall(cc)}
 	if cal := cc.StaticCallee(); cal != nil {
 		ev.Callee = fullName(cal)
 	} else if b, ok := cc.Value.(*ssa.Builtin); ok {
@@ -310,8 +356,29 @@ func mkEvent(cc *ssa.CallCommon, v ssa.Value, in ssa.Instruction, f *ssa.Functio
 }
 
 // infeasible: the relations contain a contradiction that is visible syntactically.
-func infeasible(rs relSet) bool {
+func infeasible(rs relSet, amb []string) bool {
+	ambiguous := func(k string) bool {
+		for _, a := range amb {
+			if strings.Contains(k, a) {
+				return true
+			}
+		}
+		return false
+	}
 	for k := range rs {
+		if i := topLevelIndex(k, " == "); i >= 0 {
+			a, b := k[:i], k[i+4:]
+			if a != b && isLiteralKey(a) && isLiteralKey(b) {
+				return true
+			}
+			// constructors that never return nil
+			if a == "nil" && neverNilKey(b) || b == "nil" && neverNilKey(a) {
+				return true
+			}
+		}
+		if ambiguous(k) {
+			continue // the same expression was evaluated twice on this path: its two values may differ
+		}
 		// X == true together with X == false (in either orientation)
 		for _, tv := range [][2]string{{"true", "false"}, {"false", "true"}} {
 			x := ""
@@ -330,16 +397,6 @@ func infeasible(rs relSet) bool {
 				return true
 			}
 			if rs[eqRel(a, b)] {
-				return true
-			}
-		}
-		if i := topLevelIndex(k, " == "); i >= 0 {
-			a, b := k[:i], k[i+4:]
-			if a != b && isLiteralKey(a) && isLiteralKey(b) {
-				return true
-			}
-			// constructors that never return nil
-			if a == "nil" && neverNilKey(b) || b == "nil" && neverNilKey(a) {
 				return true
 			}
 		}
@@ -421,4 +478,64 @@ func neverNilKey(k string) bool {
 	}
 	n := k[:i]
 	return n == "errors.New" || strings.HasSuffix(n, "/errors.New") || n == "fmt.Errorf" || strings.HasSuffix(n, "/errors.Errorf")
+}
+
+// valFact: a branch fact as a comparison of two SSA values (y == nil: the truth value of x).
+type valFact struct {
+	x, y ssa.Value
+	eq   bool
+}
+
+func valFactOf(cond ssa.Value, val bool) (valFact, bool) {
+	for {
+		u, ok := cond.(*ssa.UnOp)
+		if !ok || u.Op != token.NOT {
+			break
+		}
+		cond, val = u.X, !val
+	}
+	if bo, ok := cond.(*ssa.BinOp); ok {
+		switch bo.Op {
+		case token.EQL:
+			return valFact{bo.X, bo.Y, val}, true
+		case token.NEQ:
+			return valFact{bo.X, bo.Y, !val}, true
+		}
+		return valFact{}, false
+	}
+	if _, isConst := cond.(*ssa.Const); isConst {
+		return valFact{}, false
+	}
+	return valFact{cond, nil, val}, true
+}
+
+// evaluatedOnce: the value is not an instruction, or its block occurs once on the path.
+func evaluatedOnce(cp cfgPath, v ssa.Value) bool {
+	if v == nil {
+		return true
+	}
+	if c, ok := v.(*ssa.Const); ok {
+		_ = c
+		return true
+	}
+	in, ok := v.(ssa.Instruction)
+	if !ok {
+		return true
+	}
+	n := 0
+	for _, b := range cp.Blocks {
+		if b == in.Block() {
+			n++
+		}
+	}
+	return n == 1
+}
+
+func sameVal(a, b ssa.Value) bool {
+	if a == b {
+		return true
+	}
+	ca, ok1 := a.(*ssa.Const)
+	cb, ok2 := b.(*ssa.Const)
+	return ok1 && ok2 && constKey(ca) == constKey(cb)
 }
